@@ -20,30 +20,40 @@ let rec planes = function
   | ex :: ey :: tx :: ty :: m :: tl -> (((ex, ey), (tx, ty)), m) :: planes tl
   | _ -> []
 
-let zmul = Z.mul
-
 let region id payload =
   let band = field payload "band" = "1" in
   let outline = pairs (zs (field payload "O")) in
   let centre = pairs (zs (field payload "C")) in
   let cext = pairs (zs (field payload "E")) in
-  let sq l = List.map (fun r -> zmul r r) l in
-  let rc = sq (zs (field payload "RC")) in
-  let rf = sq (zs (field payload "RF")) in
+  let rc = zs (field payload "RC") in
+  let rf = zs (field payload "RF") in
   let pls = planes (zs (field payload "PL")) in
+  let cap name =
+    match String.split_on_char '|' (field payload name) with
+    | [pl; rest; rr] -> (match planes (zs pl) with [pl] -> [((pl, pairs (zs rest)), zs rr)] | _ -> [])
+    | _ -> [] in
+  let caps = cap "K0" @ cap "K1" in
   let smp = pairs (zs (field payload "S")) in
-  (* statistics of the classification (tag N: informational, not compared) *)
-  let ncov = ref 0 and nfar = ref 0 in
+  (* one pass: class of every sample (extracted classify), winding number only where a claim is
+     made, verdict by the extracted function; ncov / nfar are informational (tag N, not compared) *)
+  let ncov = ref 0 and nfar = ref 0 and bad = ref None and i = ref 0 in
   List.iter (fun p ->
-    if must_cover band p centre rc pls then incr ncov
-    else if must_not_cover p cext rf then incr nfar) smp;
+    let c = classify band centre cext rc rf pls caps p in
+    (match c with Z0 -> () | _ ->
+      if int_of_z c = 1 then incr ncov else incr nfar;
+      let v = verdict c (wn outline p) in
+      (match v, !bad with
+       | Z0, _ -> ()
+       | _, None -> bad := Some (!i, int_of_z v)
+       | _ -> ()));
+    incr i) smp;
   out id "N" (Printf.sprintf "samples=%d must-cover=%d must-not-cover=%d outline=%d centre=%d"
                 (List.length smp) !ncov !nfar (List.length outline) (List.length centre));
-  match check_points band outline centre cext rc rf pls smp Z0 with
+  match !bad with
   | None -> out id "S" "ok"
   | Some (i, c) ->
-      let what = if int_of_z c = 1 then "uncovered-point-inside-half-width" else "covered-point-beyond-reach" in
-      out id "S" (Printf.sprintf "bad sample %d %s" (int_of_z i) what)
+      let what = if c = 1 then "uncovered-point-inside-half-width" else "covered-point-beyond-reach" in
+      out id "S" (Printf.sprintf "bad sample %d %s" i what)
 
 (* counts: "g=..;nel;w:k;w:k;..." *)
 let wrappers = [| W_horizontal; W_horizontal_array; W_vertical; W_vertical_array; W_segment; W_segment_array;
@@ -83,6 +93,6 @@ let counts id payload =
 let () =
   iter_cases Sys.argv.(1) (fun id kind payload ->
     match kind with
-    | "region" -> if field payload "O" <> "" then region id payload
+    | "region" | "region_spiky" -> if field payload "O" <> "" then region id payload
     | "counts" -> counts id payload
     | _ -> ())
